@@ -105,7 +105,7 @@ Offer(m, dst, en) ==
        THEN [m EXCEPT !.x[i].mustN = IF @ > 0 THEN @ - 1 ELSE @, !.x[i].mayN = IF x.mustN = 0 THEN @ - 1 ELSE @,
                       !.x[i].owed = x.maybe \o @, !.x[i].maybe = <<>>]
        ELSE Fail(m, IF dst = "mc" THEN "stopoffer_not_expected_or_repeated" ELSE "stopoffer_not_multicast")
-  ELSE LET m1 == IF en.ttl # m.cfg.annTTL THEN Fail(m, "offer_with_wrong_ttl") ELSE m IN
+  ELSE LET m1 == IF en.ttl # (IF "ttl" \in DOMAIN m.cfg.inst[i] THEN m.cfg.inst[i].ttl ELSE m.cfg.annTTL) THEN Fail(m, "offer_with_wrong_ttl") ELSE m IN
        IF dst = "mc"
        THEN IF SR(x) = 2 /\ x.grace > 0 THEN m1            \* queued before the stop, leaves before the StopOffer
             ELSE IF x.owed # <<>>
